@@ -79,7 +79,7 @@ static void t_avail(void* ctx, void*, llb_task_interface_t ti) {
   else {
     int s = t->def->base;
     for (size_t i = 0; i < t->reqs.size(); ++i) if (t->reqs[i].kind != "follow" && t->def->proj.count(t->reqs[i].k)) s += t->got[i];
-    for (auto& d : t->def->disc) s += ext[d];
+    for (auto& d : t->def->disc) if (prog[d].leaf) s += ext[d];     // a discovered derived key is reported, not read
     pc.value = s % NVALS; pc.force = t->def->force; pc.disc = t->def->disc; pc.writesOut = t->def->out;
   }
   if (mode == SYNC) { doComplete(pc); return; }
